@@ -38,6 +38,9 @@ var gapSeeds = [][]string{
 	{"a", "=", "1", "%", "2", "*", "3", "/", "4", "\n"},
 	{"a", "=", "b", "==", "c", "||", "d", "!=", "e", "\n"},
 	{"a", "=", "<<EOT\n", "x\n", "EOT\n"},
+	{"a", "=", "b", ".", "1", ".", "e5", "\n"},
+	{"a", "=", "1", ".", "e5", ".", "E2", "\n"},
+	{"a", "=", "ns", "::", "f", "(", "1", ")", ".", "0", "\n"},
 }
 
 type tok struct {
